@@ -1303,6 +1303,7 @@ class Wtp:
         expand_invoke=True,
         quiet=False,
         timeout: Optional[Union[int, float]] = None,
+        keep_nowiki: bool = False,
     ) -> str:
         """Expands templates and parser functions (and optionally Lua macros)
         from ``text`` (which is from page with title ``title``).
@@ -1322,7 +1323,10 @@ class Wtp:
         will be called as post_template_fn(name, args_ht, expanded)
         and if it returns other than None, its return value will
         replace the template expansion.  This returns the text with
-        the given templates expanded."""
+        the given templates expanded.  ``keep_nowiki`` is used by parse():
+        <nowiki> content stays an opaque magic character in the result
+        (instead of entity-quoted text) so that parsing the result cannot
+        interpret it."""
         assert isinstance(text, str)
         assert parent is None or (
             isinstance(parent, tuple) and len(parent) == 2
@@ -1905,7 +1909,7 @@ class Wtp:
         expanded = expand_recurse(encoded, parent, not pre_expand)
 
         # Expand any remaining magic cookies and remove nowiki char
-        expanded = self._finalize_expand(expanded)
+        expanded = self._finalize_expand(expanded, keep_nowiki)
 
         # Remove LanguageConverter markups:
         # https://www.mediawiki.org/wiki/Writing_systems/Syntax
@@ -1915,9 +1919,10 @@ class Wtp:
 
         return expanded
 
-    def _finalize_expand(self, text: str) -> str:
+    def _finalize_expand(self, text: str, keep_nowiki: bool = False) -> str:
         """Expands any remaining magic characters (to their original values)
-        and removes nowiki characters."""
+        and removes nowiki characters.  With ``keep_nowiki`` the magic
+        characters of <nowiki> content are left in the text."""
         # print("_finalize_expand: {!r}".format(text))
 
         def magic_repl(m: re.Match) -> str:
@@ -1934,6 +1939,8 @@ class Wtp:
             if kind == "E":
                 return self._unexpanded_extlink(args, nowiki)
             if kind == "N":
+                if keep_nowiki:
+                    return m.group(0)
                 if not args[0]:
                     return "<nowiki/>"
                 return nowiki_quote(args[0])
@@ -2150,7 +2157,10 @@ class Wtp:
         # Expand some or all templates in the text as requested
         if expand_all:
             text = self.expand(
-                text, template_fn=template_fn, post_template_fn=post_template_fn
+                text,
+                template_fn=template_fn,
+                post_template_fn=post_template_fn,
+                keep_nowiki=True,
             )
             text = self.preprocess_text(text)
             # print(f"PARSE EXPAND ALL: {text=!r}")
@@ -2162,6 +2172,7 @@ class Wtp:
                 templates_to_not_expand=do_not_pre_expand,
                 template_fn=template_fn,
                 post_template_fn=post_template_fn,
+                keep_nowiki=True,
             )
             text = self.preprocess_text(text)
 
